@@ -385,7 +385,7 @@ func (e *Engine) loadContractFile(path string, lib bool, pkg *types.Package) err
 			default:
 				// extension clauses kept by name
 				switch word {
-				case "assume_after", "checked_conversions", "blocks", "serves", "holds_read", "before_call", "after_call", "after_assign", "at_exit", "level", "body_ensures", "body_requires":
+				case "assume_after", "checked_conversions", "blocks", "serves", "thin", "holds_read", "before_call", "after_call", "after_assign", "at_exit", "level", "body_ensures", "body_requires":
 				default:
 					return fmt.Errorf("%s:%d: unknown clause %q", rel, rl.line, word)
 				}
